@@ -33,6 +33,10 @@ pub fn reps() -> Vec<E> {
         E::Float(1.5),
         E::Float(f64::NAN),
         E::Float(f64::INFINITY),
+        // non-zero however small: truthy
+        E::Float(1e-17),
+        E::Float(-1e-17),
+        E::Float(5e-324),
         E::Null,
         E::Char('\0'),
         E::Char('a'),
